@@ -105,9 +105,9 @@ package graph
 //@   ensures [nodes]      keptNodes(g, nodes, ptrcast(result, listSubgraph).nodes, g.NumNodes())
 //@   ensures [all-nodes]  allNodes(g, nodes, ptrcast(result, listSubgraph).nodes, g.NumNodes())
 //@   ensures [edges]      forall i in 0..len(ptrcast(result, listSubgraph).nodes) :: nodeEdges(g, nodes, edges, ptrcast(result, listSubgraph).nodes, i, len(g.Out(ptrcast(result, listSubgraph).nodes[i].oldNode)))
-//@   loop 1 (node) invariant forall x int :: haskey(rmNodes, x) <==> inNodes(nodes, _k, x)
-//@   loop 2 (edge) invariant (forall x int :: haskey(rmNodes, x) <==> inNodes(nodes, len(nodes), x)) && (forall n int, j int :: haskey(rmEdges, Edge{n, j}) <==> inEdges(edges, _k, n, j))
-//@   assert @loop2:exit [assumed pigeonhole] len(rmNodes) <= g.NumNodes()
+//@   loop 1 (node) invariant (forall x int :: haskey(rmNodes, x) <==> inNodes(nodes, _k, x)) && (forall x int :: haskey(rmNodes, x) ==> 0 <= x && x < g.NumNodes())
+//@   loop 2 (edge) invariant (forall x int :: haskey(rmNodes, x) <==> inNodes(nodes, len(nodes), x)) && (forall x int :: haskey(rmNodes, x) ==> 0 <= x && x < g.NumNodes()) && (forall n int, j int :: haskey(rmEdges, Edge{n, j}) <==> inEdges(edges, _k, n, j))
+//@   assert @loop2:exit [pigeonhole] len(rmNodes) <= g.NumNodes() by pigeonhole(rmNodes, g.NumNodes())
 //@   loop 3 (oldNode) invariant 0 <= oldNode && oldNode <= g.NumNodes() && (forall x int :: haskey(rmNodes, x) <==> inNodes(nodes, len(nodes), x)) && (forall n int, j int :: haskey(rmEdges, Edge{n, j}) <==> inEdges(edges, len(edges), n, j)) && fresh(newNodes) && keptNodes(g, nodes, newNodes, oldNode) && (forall i in 0..len(newNodes) :: isnil(newNodes[i].out) && isnil(newNodes[i].oldEdges)) && (forall x int :: haskey(oldToNew, x) <==> (0 <= x && x < oldNode && !inNodes(nodes, len(nodes), x))) && (forall x int :: haskey(oldToNew, x) ==> 0 <= oldToNew[x] && oldToNew[x] < len(newNodes) && newNodes[oldToNew[x]].oldNode == x)
 //@   loop 4 (i) forget
 //@   loop 4 (i) modifies newNodes[*]
